@@ -42,6 +42,14 @@ def key_of(stderr):
     if k.startswith(("abort:", "timeout:")):
         kind, frame = k.split(":", 1)
         return kind + ":" + _ns(frame)
+    if k.startswith("asan:") and k.count(":") >= 2:
+        # memory errors: error kind + namespace of the first libabigail frame (the unvalidated hash-table / dynamic-segment
+        # code of the ELF reader fails in many neighbouring functions for one and the same reason)
+        _, kind, frame = k.split(":", 2)
+        return "asan:%s:%s" % (kind, _ns(frame))
+    if k.startswith("ubsan:"):
+        # undefined behaviour: file + kind of error, without the type named in the message
+        return re.sub(r" (of|for) type '.*$| to N overflowed.*$", "", re.sub(r" N-bit type.*$", "", k))
     return k
 
 
